@@ -1,9 +1,429 @@
 package main
 
+// Part B: values -> text. go-git's Encoder / Config.Marshal write, git and go-git read back.
+
 import (
+	"bytes"
+	"fmt"
+	"math/rand"
+	"sort"
+	"strings"
+	"sync"
+	"unicode/utf8"
+
+	format "github.com/go-git/go-git/v6/plumbing/format/config"
+
 	"verif/internal/gitx"
 	"verif/internal/vf"
 )
 
-func partMarshal(c *vf.Ctx, g *gitx.Git) {}
-func partRaw(c *vf.Ctx, g *gitx.Git)     {}
+var hostileAtoms = []string{"a", "b", "x1", "/", " ", "  ", "\t", "\n", "\b", "#", ";", `"`, `\`, "=", "é", "日", "\xff", "\x01", "[", "]", "'", "$", "%", `\n`, "*", ":", "@", "+", "-", ".", ",", "a", "b", " ", `"`, `\`}
+
+// hostile builds a string from the hostile alphabet. CR is only ever generated as the last
+// byte (an unquoted CR between value characters is read differently by git 2.39 and git >= 2.45).
+func hostile(r *rand.Rand, max int, allowNL bool) string {
+	n := r.Intn(max + 1)
+	var b strings.Builder
+	for i := 0; i < n; i++ {
+		a := hostileAtoms[r.Intn(len(hostileAtoms))]
+		if !allowNL && a == "\n" {
+			a = "n"
+		}
+		b.WriteString(a)
+	}
+	if r.Intn(25) == 0 {
+		b.WriteString("\r")
+	}
+	return b.String()
+}
+
+// strFeatures names the special character classes present in s.
+func strFeatures(s string) []string {
+	set := map[string]bool{}
+	if s == "" {
+		return []string{"empty"}
+	}
+	if s[0] == ' ' {
+		set["leading-space"] = true
+	}
+	if s[len(s)-1] == ' ' {
+		set["trailing-space"] = true
+	}
+	if s[len(s)-1] == '\r' {
+		set["trailing-cr"] = true
+	}
+	if !utf8.ValidString(s) {
+		set["invalid-utf8"] = true
+	}
+	for i := 0; i < len(s); i++ {
+		switch c := s[i]; {
+		case c == '\t':
+			set["tab"] = true
+		case c == '\n':
+			set["newline"] = true
+		case c == '\b':
+			set["backspace"] = true
+		case c == '\r':
+			set["cr"] = true
+		case c == '#':
+			set["hash"] = true
+		case c == ';':
+			set["semicolon"] = true
+		case c == '"':
+			set["dquote"] = true
+		case c == '\\':
+			set["backslash"] = true
+		case c < 0x20 || c == 0x7f:
+			set["control-char"] = true
+		case c >= 0x80:
+			if utf8.ValidString(s) {
+				set["non-ascii"] = true
+			}
+		case c == ' ' && i > 0 && i < len(s)-1:
+			set["inner-space"] = true
+		case c == '[' || c == ']':
+			set["bracket"] = true
+		case c == '=':
+			set["equals"] = true
+		}
+	}
+	if len(set) == 0 {
+		return []string{"plain"}
+	}
+	out := make([]string, 0, len(set))
+	for k := range set {
+		out = append(out, k)
+	}
+	sort.Strings(out)
+	return out
+}
+
+type rawOpt struct{ Sec, Sub, Key, Val string }
+
+func encodeRaw(opts []rawOpt) ([]byte, error, any) {
+	cfg := format.New()
+	// build sections in order; a new Section object per run of equal (Sec) names
+	for _, o := range opts {
+		cfg.AddOption(o.Sec, o.Sub, o.Key, o.Val)
+	}
+	var buf bytes.Buffer
+	var err error
+	p, _ := vf.Catch(func() { err = format.NewEncoder(&buf).Encode(cfg) })
+	return buf.Bytes(), err, p
+}
+
+// expectedRaw: what a reader must report for a config built with AddOption in this order.
+func expectedRaw(opts []rawOpt) map[triple][]gval {
+	m := map[triple][]gval{}
+	for _, o := range opts {
+		t := triple{strings.ToLower(o.Sec), o.Sub, strings.ToLower(o.Key)}
+		m[t] = append(m[t], gval{true, o.Val})
+	}
+	return m
+}
+
+func groupsEqual(a, b map[triple][]gval) (bool, string) {
+	for t, av := range a {
+		bv, ok := b[t]
+		if !ok {
+			return false, fmt.Sprintf("%v missing", t)
+		}
+		if len(av) != len(bv) {
+			return false, fmt.Sprintf("%v: want %s got %s", t, showVals(av), showVals(bv))
+		}
+		for i := range av {
+			if av[i] != bv[i] {
+				return false, fmt.Sprintf("%v: want %s got %s", t, showVals(av), showVals(bv))
+			}
+		}
+	}
+	for t := range b {
+		if _, ok := a[t]; !ok {
+			return false, fmt.Sprintf("unexpected %v = %s", t, showVals(b[t]))
+		}
+	}
+	return true, ""
+}
+
+// evalRaw: encode opts, read with the git model and with go-git. kind "" = fine.
+func evalRaw(opts []rawOpt) (kind, detail string, text []byte, recs []rec, modelOK bool) {
+	text, err, pv := encodeRaw(opts)
+	if pv != nil {
+		return "encoder-panic", fmt.Sprint(pv), text, nil, false
+	}
+	if err != nil {
+		return "encoder-error", err.Error(), text, nil, false
+	}
+	want := expectedRaw(opts)
+	rr, ok := gitParse(text)
+	if !ok {
+		return "git-rejects", "git: bad config line", text, nil, false
+	}
+	recs = toRecs(rr)
+	gm, _ := group(recs)
+	if eq, d := groupsEqual(want, gm); !eq {
+		return "git-reads-different", d, text, recs, true
+	}
+	raw, derr, dpv := decodeRaw(text)
+	if dpv != nil {
+		return "gogit-readback-panic", fmt.Sprint(dpv), text, recs, true
+	}
+	if derr != nil {
+		return "gogit-readback-error", derr.Error(), text, recs, true
+	}
+	mm, _ := group(flatten(raw))
+	if eq, d := groupsEqual(want, mm); !eq {
+		return "gogit-reads-different", d, text, recs, true
+	}
+	return "", "", text, recs, true
+}
+
+type rawCase struct {
+	opts      []rawOpt
+	kind, det string
+	text      []byte
+	recs      []rec
+	modelOK   bool
+}
+
+var rawSecs = []string{"alpha", "Beta", "x-y", "a1", "http", "color", "Alias"}
+var rawKeys = []string{"k", "key", "Name", "opt-1", "x9", "URL"}
+
+func partRaw(c *vf.Ctx, g *gitx.Git) {
+	dir := c.TempDir("raw")
+	n := c.N(3000, 40000)
+	cases := make([]*rawCase, n)
+	vf.Parallel(n, 8, func(i int) {
+		r := c.Rand("raw", i)
+		no := 1 + r.Intn(4)
+		var opts []rawOpt
+		sec, sub := pick(r, rawSecs...), ""
+		for k := 0; k < no; k++ {
+			if k == 0 || r.Intn(2) == 0 {
+				sec = pick(r, rawSecs...)
+				sub = ""
+				if r.Intn(2) == 0 {
+					sub = hostile(r, 4, false)
+					sub = strings.TrimRight(sub, "\r")
+				}
+			}
+			opts = append(opts, rawOpt{sec, sub, pick(r, rawKeys...), hostile(r, 6, true)})
+		}
+		rc := &rawCase{opts: opts}
+		rc.kind, rc.det, rc.text, rc.recs, rc.modelOK = evalRaw(opts)
+		cases[i] = rc
+		feats := map[string]bool{}
+		for _, o := range opts {
+			for _, f := range strFeatures(o.Val) {
+				feats["v:"+f] = true
+				c.Seen("raw_value_classes", f)
+			}
+			if o.Sub != "" {
+				for _, f := range strFeatures(o.Sub) {
+					feats["s:"+f] = true
+				}
+			}
+		}
+		var fl []string
+		for f := range feats {
+			fl = append(fl, f)
+		}
+		sort.Strings(fl)
+		c.Eval("raw:"+strings.Join(fl, "+"), len(fl) > 1 || (len(fl) == 1 && fl[0] != "v:plain"))
+		c.Count("raw_configs_encoded", 1)
+		if i < 1 {
+			c.Sample(map[string]any{"raw_options": opts, "encoded": string(rc.text)})
+		}
+	})
+	confirmRawCases(c, g, dir, cases, "raw")
+	c.Floor("raw configs encoded by go-git and read by git", c.Counter("raw_git_confirmed"), c.N(2500, 35000))
+}
+
+// confirmRawCases: git lists every model-accepted text (must equal the model), individually
+// confirms model-rejected ones, then failing cases are minimised to one option and keyed.
+func confirmRawCases(c *vf.Ctx, g *gitx.Git, dir string, cases []*rawCase, part string) {
+	var texts [][]byte
+	var want [][]rec
+	var idx []int
+	for i, rc := range cases {
+		if rc != nil && rc.modelOK {
+			texts = append(texts, rc.text)
+			want = append(want, rc.recs)
+			idx = append(idx, i)
+		}
+	}
+	okv := confirmBatch(c, g, dir, texts, want, part+" text written by go-git")
+	confirmed := map[int]bool{}
+	for k, i := range idx {
+		if okv[k] {
+			confirmed[i] = true
+			c.Count(part+"_git_confirmed", 1)
+		}
+	}
+	// minimise failing cases; cache by feature signature of the failing option
+	type minRes struct {
+		key, why string
+		text     []byte
+		recs     []rec
+		modelOK  bool
+	}
+	var mu sync.Mutex
+	cache := map[string]*minRes{}
+	var order []string
+	rep := map[string]int{}
+	sigOf := map[int]string{}
+	for i, rc := range cases {
+		if rc == nil || rc.kind == "" {
+			continue
+		}
+		if rc.modelOK && !confirmed[i] {
+			continue // model mismatch already reported
+		}
+		var fs []string
+		for _, o := range rc.opts {
+			fs = append(fs, strings.Join(strFeatures(o.Sub), ",")+"/"+strings.Join(strFeatures(o.Val), ","))
+		}
+		s := rc.kind + "|" + strings.Join(fs, ";")
+		sigOf[i] = s
+		if _, ok := rep[s]; !ok {
+			rep[s] = i
+			order = append(order, s)
+		}
+	}
+	vf.Parallel(len(order), 8, func(k int) {
+		rc := cases[rep[order[k]]]
+		m := &minRes{}
+		m.key, m.why, m.text, m.recs, m.modelOK = minimiseRaw(rc.opts, rc.kind)
+		mu.Lock()
+		cache[order[k]] = m
+		mu.Unlock()
+	})
+	// git confirms minimal texts
+	texts, want = nil, nil
+	var ms []*minRes
+	for _, s := range order {
+		m := cache[s]
+		if m.modelOK {
+			texts = append(texts, m.text)
+			want = append(want, m.recs)
+			ms = append(ms, m)
+		}
+	}
+	okv = confirmBatch(c, g, dir, texts, want, part+" minimised text")
+	good := map[*minRes]bool{}
+	for k, m := range ms {
+		good[m] = okv[k]
+	}
+	for _, s := range order {
+		m := cache[s]
+		if !m.modelOK { // git-rejects according to the model: ask git itself
+			_, ok, res := gitList(g, dir, m.text)
+			c.Count("git_reject_confirmations", 1)
+			if res.Timeout {
+				c.Inconclusive("git config timed out")
+				continue
+			}
+			if ok {
+				c.Broken("MODEL-MISMATCH: model rejects %q, git accepts it", m.text)
+				continue
+			}
+			good[m] = true
+		}
+	}
+	for i, rc := range cases {
+		s, ok := sigOf[i]
+		if !ok {
+			continue
+		}
+		m := cache[s]
+		if !good[m] {
+			continue
+		}
+		dbgFail(c, m.key, fmt.Sprintf("%s: %s; go-git wrote %q for options %+v; minimal: %s", rc.kind, rc.det, rc.text, rc.opts, m.why),
+			map[string]any{"options": rc.opts, "encoded": string(rc.text)})
+	}
+}
+
+// minimiseRaw reduces a failing option list to one option with a minimal subsection/value.
+func minimiseRaw(opts []rawOpt, kind string) (key, why string, text []byte, recs []rec, modelOK bool) {
+	cur := append([]rawOpt(nil), opts...)
+	_, det, text, recs, modelOK := evalRaw(cur)
+	try := func(cand []rawOpt) bool {
+		k, d, t, rc, mok := evalRaw(cand)
+		if k == kind {
+			cur, det, text, recs, modelOK = cand, d, t, rc, mok
+			return true
+		}
+		return false
+	}
+	for i := len(cur) - 1; i >= 0 && len(cur) > 1; i-- {
+		cand := append(append([]rawOpt(nil), cur[:i]...), cur[i+1:]...)
+		try(cand)
+	}
+	for oi := range cur {
+		mod := func(f func(o *rawOpt)) bool {
+			cand := append([]rawOpt(nil), cur...)
+			f(&cand[oi])
+			return try(cand)
+		}
+		mod(func(o *rawOpt) { o.Sec, o.Key = "alpha", "k" })
+		mod(func(o *rawOpt) { o.Sub = "" })
+		for pass := 0; pass < 2; pass++ {
+			for bi := len(cur[oi].Sub) - 1; bi >= 0; bi-- {
+				if bi < len(cur[oi].Sub) && len(cur[oi].Sub) > 1 {
+					mod(func(o *rawOpt) { o.Sub = o.Sub[:bi] + o.Sub[bi+1:] })
+				}
+			}
+			for bi := len(cur[oi].Val) - 1; bi >= 0; bi-- {
+				if bi < len(cur[oi].Val) {
+					// delete whole runes where possible (half a rune is a different input class)
+					lo := bi
+					for lo > 0 && !utf8.RuneStart(cur[oi].Val[lo]) && bi-lo < 3 {
+						lo--
+					}
+					if _, sz := utf8.DecodeRuneInString(cur[oi].Val[lo:]); sz > 1 && lo+sz == bi+1 {
+						if mod(func(o *rawOpt) { o.Val = o.Val[:lo] + o.Val[bi+1:] }) {
+							continue
+						}
+					}
+					mod(func(o *rawOpt) { o.Val = o.Val[:bi] + o.Val[bi+1:] })
+				}
+			}
+		}
+		if cur[oi].Val == "" {
+			mod(func(o *rawOpt) { o.Val = "a" }) // an empty value only stays in the key if it is needed
+		}
+		// neutralise remaining bytes that are not needed: plain 'a', else the canonical
+		// character that makes the encoder quote the value ('#')
+		for bi := 0; bi < len(cur[oi].Val); bi++ {
+			if ch := cur[oi].Val[bi]; ch != 'a' && ch < 0x80 {
+				if !mod(func(o *rawOpt) { o.Val = o.Val[:bi] + "a" + o.Val[bi+1:] }) && ch != '#' {
+					mod(func(o *rawOpt) { o.Val = o.Val[:bi] + "#" + o.Val[bi+1:] })
+				}
+			}
+		}
+		for bi := 0; bi < len(cur[oi].Sub); bi++ {
+			if cur[oi].Sub[bi] != 'a' {
+				mod(func(o *rawOpt) { o.Sub = o.Sub[:bi] + "a" + o.Sub[bi+1:] })
+			}
+		}
+	}
+	var parts []string
+	for _, o := range cur {
+		p := ""
+		if o.Sub != "" {
+			if f := strFeatures(o.Sub); !(len(f) == 1 && f[0] == "plain") {
+				p += "subsection[" + strings.Join(f, "+") + "]"
+			}
+		}
+		if f := strFeatures(o.Val); !(len(f) == 1 && f[0] == "plain") {
+			p += "value[" + strings.Join(f, "+") + "]"
+		}
+		if p == "" {
+			p = "plain"
+		}
+		parts = append(parts, p)
+	}
+	sort.Strings(parts)
+	return "encode:" + kind + ":" + strings.Join(parts, "|"), fmt.Sprintf("options %+v -> %q: %s", cur, text, det), text, recs, modelOK
+}
